@@ -27,7 +27,8 @@ type mapCfg struct {
 	NF     string `json:"nf"`    // "bin" | "v1"
 	Cache  string `json:"cache"` // "none" | "large" | "tiny"
 	Layers []int  `json:"layers"`
-	Src    string `json:"src"` // "random" | "tlc"
+	Src    string `json:"src"`   // "random" | "tlc"
+	Marsh  string `json:"marsh"` // "" (default JSON) | "gob" (custom marshaler, registered types)
 }
 
 type obsT struct {
@@ -61,19 +62,20 @@ type mapEvent struct {
 	DLoad int     `json:"dloads"` // distinct names among them
 	Ents  [][]int `json:"ents"`   // result of iter / cursor walk
 	// MakeRoot
-	Link   []term   `json:"link"`
-	Name   string   `json:"name"`
-	RH     int      `json:"rh"`
-	RS     int      `json:"rs"`
-	RBF    int      `json:"rbf"`
-	RNF    string   `json:"rnf"`
-	W      []term   `json:"w"`
-	WNames []string `json:"wnames"`
-	JSON   bool     `json:"json"`
-	Cached bool     `json:"cached"`
-	Obs    []obsT   `json:"obs"`
-	RObs   []robsT  `json:"robs"`
-	Cfg    *mapCfg  `json:"cfg,omitempty"`
+	Link     []term   `json:"link"`
+	Name     string   `json:"name"`
+	RH       int      `json:"rh"`
+	RS       int      `json:"rs"`
+	RBF      int      `json:"rbf"`
+	RNF      string   `json:"rnf"`
+	W        []term   `json:"w"`
+	WNames   []string `json:"wnames"`
+	JSON     bool     `json:"json"`
+	Cached   bool     `json:"cached"`
+	CacheMut int      `json:"cachemut"` // node objects handed to the shared cache whose contents changed during this call
+	Obs      []obsT   `json:"obs"`
+	RObs     []robsT  `json:"robs"`
+	Cfg      *mapCfg  `json:"cfg,omitempty"`
 }
 
 type mapHandle struct {
@@ -92,6 +94,7 @@ type mapRun struct {
 	kc      *keyCodec
 	vc      *valCodec
 	st      *recStore
+	watch   *watchCache
 	persist mast.Persist // when set, what the trees are given instead of st
 	cache   mast.NodeCache
 	hs      map[int]*mapHandle
@@ -121,6 +124,9 @@ func (r *mapRun) remoteCfg(withCache bool) *mast.RemoteConfig {
 	if withCache && r.cache != nil {
 		c.NodeCache = r.cache
 	}
+	if r.cfg.Marsh == "gob" {
+		c.Marshal, c.Unmarshal, c.UnmarshalerUsesRegisteredTypes = gobMarshal, gobUnmarshal, true
+	}
 	return c
 }
 
@@ -137,11 +143,13 @@ func newMapRun(cfg mapCfg, rng *rand.Rand, out *json.Encoder) *mapRun {
 	r.st.keepAll = true
 	switch cfg.Cache {
 	case "large":
-		r.cache = mast.NewNodeCache(1000)
+		r.watch = newWatchCache(mast.NewNodeCache(1000))
+		r.cache = r.watch
 	case "tiny":
-		r.cache = mast.NewNodeCache(2)
+		r.watch = newWatchCache(mast.NewNodeCache(2))
+		r.cache = r.watch
 	}
-	r.proj = &projector{nf: cfg.NF, kc: r.kc, vc: r.vc, st: r.st}
+	r.proj = &projector{nf: cfg.NF, kc: r.kc, vc: r.vc, st: r.st, gob: cfg.Marsh == "gob"}
 	return r
 }
 
@@ -221,6 +229,9 @@ func (r *mapRun) emit(ev *mapEvent) {
 		ev.WNames = []string{}
 	}
 	r.observe(ev)
+	if r.watch != nil {
+		ev.CacheMut = len(r.watch.check())
+	}
 	r.out.Encode(ev)
 	r.nsteps++
 }
@@ -460,6 +471,17 @@ func randomMapTrace(id int, seed int64, steps int, out *json.Encoder, fixed *map
 		cfg.VT = valTypes[rng.Intn(len(valTypes))]
 		cfg.NF = []string{"bin", "v1"}[rng.Intn(2)]
 		cfg.Cache = []string{"none", "large", "tiny"}[rng.Intn(3)]
+		if (profile == "reload" || profile == "general") && rng.Intn(5) == 0 {
+			// custom marshaler with registered types: element-wise encoding of the binary format
+			cfg.Marsh = "gob"
+			cfg.NF = "bin"
+			cfg.KT = []string{"int", "int64", "uint", "uint64", "string", "bytes", "userkey"}[rng.Intn(7)]
+		}
+		if profile == "versions" {
+			// the shared cache is what makes versions meet in the same node objects
+			cfg.Cache = []string{"large", "large", "tiny", "none"}[rng.Intn(4)]
+			cfg.NK = 4 + rng.Intn(4)
+		}
 		if profile == "c08" {
 			cfg.NK = 6
 			cfg.Bf = []uint{2, 3, 16}[rng.Intn(3)]
@@ -617,8 +639,43 @@ func randomMapTrace(id int, seed int64, steps int, out *json.Encoder, fixed *map
 		}
 	}
 	if storesOut != nil {
+		if rng.Intn(3) == 0 {
+			r.concurrentCloneFlush(rng)
+		}
 		r.dumpStores()
 	}
+}
+
+// concurrentCloneFlush: a tree and its clone, modified differently, are persisted at the same time from two goroutines
+// (not part of the validated history; every Store call ends up in the C08 dump).
+func (r *mapRun) concurrentCloneFlush(rng *rand.Rand) {
+	o := nfOf(r.cfg.NF)
+	o.BranchFactor = r.cfg.Bf
+	m1, err := mast.NewRoot(&o).LoadMast(ctx, r.remoteCfg(true))
+	if err != nil {
+		return
+	}
+	for k := 1; k <= r.cfg.NK; k++ {
+		m1.Insert(ctx, r.kc.Key(k), r.vc.Val(1))
+	}
+	c, err := m1.Clone(ctx)
+	if err != nil {
+		return
+	}
+	m2 := &c
+	for i := 0; i < 3; i++ {
+		m1.Insert(ctx, r.kc.Key(1+rng.Intn(r.cfg.NK)), r.vc.Val(2))
+		m2.Delete(ctx, r.kc.Key(1+rng.Intn(r.cfg.NK)), r.vc.Val(1))
+	}
+	done := make(chan struct{}, 2)
+	for _, m := range []*mast.Mast{m1, m2} {
+		go func(m *mast.Mast) {
+			guard(func() error { _, err := m.MakeRoot(ctx); return err })
+			done <- struct{}{}
+		}(m)
+	}
+	<-done
+	<-done
 }
 
 // storesOut, when set, receives every Persist.Store call of every history (C08).
